@@ -9,4 +9,9 @@ require (
 	verifref v0.0.0
 )
 
+require (
+	golang.org/x/crypto v0.0.0-20220321153916-2c7772ba3064 // indirect
+	golang.org/x/sys v0.0.0-20220325203850-36772127a21f // indirect
+)
+
 replace verifref => /verif/ref
